@@ -91,7 +91,20 @@ def run(pid, tier, seed, replay=None):
         ck.add_tlc("Trace_Lifecycle (%d calls)" % len(rows), res)
         if res.rc != 0 or not rep:
             raise vlib.Infra("Trace_Lifecycle failed:\n" + res.out[-2500:])
-        for d in rep[-1]["deviations"]:
+        devs = rep[-1]["deviations"]
+        # Lifecycle!Bytes writes down the library's allocation scheme.  If a freshly constructed / freshly read object already
+        # disagrees with it, the scheme has changed (an extra block, a different padding) - then "ledger-mismatch" says nothing
+        # about leaks and is reported as drift; leaks and abandoned storage are still decided by leak-at-destruction,
+        # allocator-misuse and LeakSanitizer, which do not depend on the scheme.
+        def fresh(ev):
+            return ev["op"] in ("read", "readmem", "stack") and ev.get("ok") and ev["pre"]["ndim"] == 0 and not ev["pre"]["aux"] and ev.get("armed", -1) < 0
+        scheme_changed = any(d["kind"] == "ledger-mismatch" and fresh(rows[d["line"] - 1]) for d in devs)
+        ck.cov["allocation_scheme_matches_Lifecycle_Bytes"] = not scheme_changed
+        if scheme_changed:
+            nlm = sum(1 for d in devs if d["kind"] == "ledger-mismatch")
+            ck.drift("the bytes held by a freshly read table differ from Lifecycle!Bytes: the allocation scheme changed; %d ledger-mismatch observations are not judged" % nlm)
+            devs = [d for d in devs if d["kind"] != "ledger-mismatch"]
+        for d in devs:
             ev = rows[d["line"] - 1]
             ck.violation({"class": d["kind"], "op": d["op"], "armed": d["armed"] >= 0, "pre_populated": ev["pre"]["ndim"] > 0, "kind": ev.get("kind"), "file": ev.get("file")} if d["op"] != "stack" else {"class": d["kind"], "op": "stack", "armed": d["armed"] >= 0, "kind": ev.get("kind")},
                          {"what": "call violates the life-cycle contract: " + d["kind"], "event": {k: ev[k] for k in ev if k not in ("want",)}, "line": d["line"]})
